@@ -3,10 +3,14 @@
 use crate::error::AuthError;
 use crate::session::Session;
 
+#[cfg(not(humphrey_verif))]
 use argon2::password_hash::rand_core::OsRng;
+#[cfg(humphrey_verif)]
+use humsim::rand::OsRng;
 use argon2::password_hash::{PasswordHash, PasswordHasher, PasswordVerifier, SaltString};
 use argon2::{Algorithm, Argon2, Params, Version};
 
+#[cfg_attr(humphrey_verif, allow(unused_imports))]
 use uuid::Uuid;
 
 /// Represents a user.
@@ -24,7 +28,19 @@ impl User {
     /// Creates a user with the given password.
     /// Returns the user object of the new user.
     pub fn create(password: impl AsRef<str>, pepper: Option<&[u8]>) -> Result<User, AuthError> {
+        #[cfg(not(humphrey_verif))]
         let uid = Uuid::new_v4().to_string();
+        #[cfg(humphrey_verif)]
+        let uid = {
+            // a version-4 uuid drawn from the simulated process's own randomness
+            let mut bytes = [0u8; 16];
+            argon2::password_hash::rand_core::RngCore::fill_bytes(&mut OsRng, &mut bytes);
+            uuid::Builder::from_bytes(bytes)
+                .set_variant(uuid::Variant::RFC4122)
+                .set_version(uuid::Version::Random)
+                .build()
+                .to_string()
+        };
         let password = password.as_ref();
         let salt = SaltString::generate(&mut OsRng);
         let argon2 = create_argon2_instance(pepper);
